@@ -21,12 +21,17 @@ PLAN  = {"quick":    {"shards": 8, "parallel": 4, "cases": 24,   "timeout": 1500
 REQUIRED = ["oracle.rebuild-same", "oracle.inproc-chunked-same", "oracle.multiproc-same", "observed.multiproc-evaluations",
             "observed.runs-with-2+-worker-pids", "observed.arrival-orders", "oracle.multiproc-after-earlier-run",
             "observed.cases-with-experiment-seed-0", "observed.cases-with-materialized-environments",
-            "observed.cases-with-midstream-generator-learner-listed-once", "observed.cases-with-an-environment-without-interactions"]
+            "observed.cases-with-midstream-generator-learner-listed-once", "observed.cases-with-an-environment-without-interactions",
+            "observed.cases-with-a-listed-learner-that-is-a-logging-policy-elsewhere"]
 ASSUMPTIONS = ["only deterministic picklable components; timing columns excluded", "processes <= 6",
                "seed=None (time seeded) filters are not generated"]
 
-def gen_case(rng, force_seed0=False, force_materialized=False, force_partial_cache=False, force_rnginit=False, force_empty_env=False):
+def gen_case(rng, force_seed0=False, force_materialized=False, force_partial_cache=False, force_rnginit=False, force_empty_env=False, force_policy=False):
     spec = X.gen_spec(rng)
+    if force_policy:
+        # a learner listed once (trained in place by an in-process run, pickled pristine for a worker) that is also the logging policy
+        # of a later triple's environment, which is evaluated off-policy
+        spec = X.policy_sharing_spec(rng)
     if force_partial_cache:
         # a cached environment longer than one cache slice (25), read in part by a later stage, evaluated by several learners
         g = spec["groups"][0]
@@ -145,7 +150,9 @@ def run_shard(ctx):
     workdir = tempfile.mkdtemp(prefix=f"vf-c01-{ctx.shard}-")
     try:
         for i in range(ctx.n):
-            case = gen_case(ctx.rng, force_seed0=(i == 0), force_materialized=(i == 1), force_partial_cache=(i == 2), force_rnginit=(i == 1 and ctx.shard % 2 == 1), force_empty_env=(i == 0 and ctx.shard % 2 == 0))
+            case = gen_case(ctx.rng, force_seed0=(i == 0), force_materialized=(i == 1), force_partial_cache=(i == 2), force_rnginit=(i == 1 and ctx.shard % 2 == 1), force_empty_env=(i == 0 and ctx.shard % 2 == 0),
+                            force_policy=(i == 2 and ctx.shard % 2 == 0))
+            if case["spec"].get("policy_sharing"): ctx.count("observed.cases-with-a-listed-learner-that-is-a-logging-policy-elsewhere")
             if any(f[0] == "take_strict" for g in case["spec"]["groups"] for f in g["filters"]): ctx.count("observed.cases-with-an-environment-without-interactions")
             if _once_rnginit(case["spec"]): ctx.count("observed.cases-with-midstream-generator-learner-listed-once")
             if any(f[0] == "materialize" for g in case["spec"]["groups"] for f in g["filters"]): ctx.count("observed.cases-with-materialized-environments")
